@@ -25,7 +25,7 @@ func init() {
 		MaxBatch: 150,
 		Level:    "exploration",
 		Workers:  16,
-		Rule: "seeded histories over 2-3 collections created in a FRESH store (collection-number allocation is part of the mechanism; in every second case the collections are created at the same moment with delays injected at the allocation's database commands), overlapping keys and several clients per collection; after every request the store diff is partitioned by owner (collection number in -_-Datatypes / -_-Operations / -_-Snapshots / -_-Clients, name for user collections): a request issued under collection A may touch only A-owned documents; foreign requests (a client registered in A naming collection B; a client of A first sending a client message that names B - which must be refused without changing anything - and then asking for B's datatype; packs carrying the DUID of a datatype of B with every option-bit combination, sent by a client at sequence 1 and by one further along) must leave B-owned documents untouched and must not return operations of B; a REST patch may touch only the collection it names; the same key in two collections yields two datatypes, and the notifications a sync causes are published on <its own collection>/<key> with the id of that collection's datatype (never on the topic of the same key in another collection); ResetCollection(A) at random points removes every A-owned datatype, operation, snapshot and client document and the user collection A while the dump restricted to the other collections is identical; " +
+		Rule: "seeded histories over 2-3 collections (in a third of the cases with names of about 70 bytes that differ in the last character only) created in a FRESH store (collection-number allocation is part of the mechanism; in every second case the collections are created at the same moment with delays injected at the allocation's database commands), overlapping keys and several clients per collection; after every request the store diff is partitioned by owner (collection number in -_-Datatypes / -_-Operations / -_-Snapshots / -_-Clients, name for user collections): a request issued under collection A may touch only A-owned documents; foreign requests (a client registered in A naming collection B; a client of A first sending a client message that names B - which must be refused without changing anything - and then asking for B's datatype; packs carrying the DUID of a datatype of B with every option-bit combination, sent by a client at sequence 1 and by one further along) must leave B-owned documents untouched and must not return operations of B; a REST patch may touch only the collection it names; the same key in two collections yields two datatypes, and the notifications a sync causes are published on <its own collection>/<key> with the id of that collection's datatype (never on the topic of the same key in another collection); ResetCollection(A) at random points removes every A-owned datatype, operation, snapshot and client document and the user collection A while the dump restricted to the other collections is identical; " +
 			"non-trivial = at least two collections hold the same key and at least one request crossed the collection boundary; distinct = hash of the step script",
 		Assumptions: []string{
 			"MongoDB is the in-memory stand-in; volatile timestamps are ignored in diffs",
@@ -134,8 +134,14 @@ func runC17(c *core.Case) *core.Result {
 	ncol := 2 + r.Intn(2)
 	var cols []string
 	numToName := map[int32]string{}
+	prefix := "col"
+	if r.Intn(3) == 0 {
+		// long names that differ in their last character only (a naming scheme with a common
+		// stem): two names are two collections however long their common prefix is
+		prefix = "inventory-of-the-northern-warehouse-and-its-subsidiaries-2026-q3-col"
+	}
 	for i := 0; i < ncol; i++ {
-		cols = append(cols, fmt.Sprintf("col%c", 'A'+i))
+		cols = append(cols, fmt.Sprintf("%s%c", prefix, 'A'+i))
 	}
 	if c.Index%2 == 1 {
 		// the collections are created at the same moment (two administrators, two services
